@@ -16,7 +16,7 @@ RULE = ('Every <syntax> note of every segment of every shipped map file (read in
         'note is violated.')
 ASSUMPTIONS = ['an element is "present" when its value is non-empty; values used are single letters so no other check depends on the pattern except required/not-used, which the baseline run removes',
                'maps that the real loader cannot load (841, see C16 finding) are covered for monitors (1)-(2) only, through the unbound parser']
-REQUIRED_COUNTERS = ['notes', 'evals:semantic', 'evals:routing', 'violated:P', 'violated:R', 'violated:E', 'violated:C', 'violated:L', 'satisfied']
+REQUIRED_COUNTERS = ['contract:evals', 'contract:evals:violated-note', 'notes', 'evals:semantic', 'evals:routing', 'violated:P', 'violated:R', 'violated:E', 'violated:C', 'violated:L', 'satisfied']
 MIN_CASES = {'quick': 100000, 'thorough': 100000}
 
 
@@ -169,6 +169,43 @@ def run(ctx):
                             if e1.err_seg != e0.err_seg:
                                 ctx.viol('syntax:routing:segment-level', 'a syntax note produced a segment-level error', case, {'with': e1.err_seg, 'without': e0.err_seg})
     ctx.case(n=total, nt_disjoint=nontriv, sample={'note': 'P0304', 'pattern': [1, 0], 'length': 4, 'expected_violated': True})
+    contract_phase(ctx)
+
+
+def contract_phase(ctx):
+    """Record-only icontract postcondition on the real is_syntax_valid (alias in map_if re-bound) while documents with broken notes are validated."""
+    from vlib import probes, pipeline, gen_doc, faults
+    log = []
+    patched, orig = probes.install_syntax_contract(log)
+    left = probes.survivors(orig)
+    ctx.count('contract:aliases-rebound', len(patched))
+    if left:
+        raise RuntimeError('binding audit: undecorated is_syntax_valid still bound at %r' % left)
+    entries = [e for e in gen_doc.index_entries() if e['file'] != '841.4010.XXXC.xml' and ('837' in e['file'] or '835' in e['file'] or '834' in e['file'] or '820' in e['file'] or '277' in e['file'])]
+    ndocs = 3 if ctx.quick else 25
+    for k in range(ndocs):
+        rng = ctx.sub_rng('c14c', ctx.shard, k)
+        e = entries[(ctx.shard * 5 + k) % len(entries)]
+        try:
+            doc = gen_doc.gen_document(e, rng.randrange(1 << 30), fill=0.6, opt_prob=0.7, maxrep=1, charset='E', n_st=1)
+        except gen_doc.GenFailed:
+            continue
+        if len(doc.recs) > 400:
+            continue
+        for _ in range(3):
+            f = faults.inject(rng, doc, kind='syntax', tries=3)
+            if f is not None:
+                doc = f.doc
+        del log[:]
+        pipeline.validate(doc.text(), charset='E', ack=False)
+        ctx.count('contract:documents')
+        for (sid, note, pres, got, exp) in log:
+            ctx.count('contract:evals')
+            if not exp:
+                ctx.count('contract:evals:violated-note')
+            if got != exp:
+                ctx.viol('syntax:%s:%s' % (note[0], 'false-violation' if exp else 'missed-violation'), 'contract on is_syntax_valid (document workload): result differs from the X12 definition',
+                         {'map': e['file'], 'segment': sid, 'note': note, 'presence': pres}, {'got': got, 'expected': exp})
 
 
 def replay(ctx, case):
